@@ -97,6 +97,7 @@ class H:
         self.scope: CancelScope | None = None
         self.nfresh = 0
         self.callables: dict[str, Any] = {}
+        self.bg_tg: Any = None
         self.probe_every = bool(plan.get("probe_every"))
 
     # ---- identity helpers
@@ -234,6 +235,12 @@ class H:
                         tg.start_soon(self.branch, br, exp, name="w:" + br["name"])
             elif op == "ops":
                 await self.ops(a[1], a[2] if len(a) > 2 and a[2] else exp)
+            elif op == "bg":
+                # a task spawned here through a task group opened *outside* every block: it
+                # keeps the context that was current where it was spawned, even after that
+                # context has been left and closed by the spawner
+                if self.bg_tg is not None:
+                    self.bg_tg.start_soon(self.branch, a[1], exp, name="w:" + a[1]["name"])
             elif op == "svc":
                 await self.svc(a[1], exp)
             elif op == "corrupt":
@@ -460,6 +467,9 @@ class H:
                 await self.register(s[1])
             elif op == "ops":
                 await self.ops(s[1], cid)
+            elif op == "child":
+                # a context created (and entered) while the current one is being torn down
+                await self.run_block(s[1], cid)
             elif op == "raise":
                 e = self.tag.make(s[1])
                 sim.log("raise", where="cb", cb=spec["id"], exc=describe(e))
@@ -603,7 +613,11 @@ def make_main(plan: dict):
                 sim.user["scope"] = scope
                 try:
                     h.at(None, "start")
-                    if ambient == "except":
+                    if plan.get("bg"):
+                        async with create_task_group() as h.bg_tg:
+                            await h.run_block(root, None)
+                            h.at(None, "end")
+                    elif ambient == "except":
                         try:
                             raise Ambient("ambient")
                         except Ambient:
@@ -1162,6 +1176,7 @@ def gen(rng: random.Random, tier: str, prop: str) -> dict:
 
 def gen_c12(g: G) -> dict:
     rng = g.rng
+    use_bg = [False]
 
     def body(depth: int) -> list:
         out: list = []
@@ -1184,10 +1199,22 @@ def gen_c12(g: G) -> dict:
                     b["end"] = {"how": "raise", "exc": g.exc_class()}
                 if rng.random() < 0.3:
                     cb = g.cb()
+                    if cb["kind"] != "sync" and rng.random() < 0.5 and g.nctx < 10:
+                        g.nctx += 1
+                        inner = {"id": f"x{g.nctx}", "parent": rng.choice(("implicit", "explicit")), "body": [rpause(rng)], "end": {"how": "return"}, "catch": True}
+                        keep = [st for st in cb["body"] if st[0] != "raise"]
+                        cb["body"] = keep[:1] + [["child", inner]] + keep[1:] + [st for st in cb["body"] if st[0] == "raise"][:1]
                     b["body"].insert(0, ["reg", cb])
                 if rng.random() < 0.2:
                     g.nctx += 1
                     b["via"] = f"x{g.nctx}"
+                if rng.random() < 0.25 and g.ntask < 8:
+                    g.ntask += 1
+                    b["body"].insert(
+                        rng.randint(0, len(b["body"])),
+                        ["bg", {"name": f"t{g.ntask}", "body": [rpause(rng, 0.1), rpause(rng, 0.1), rpause(rng, 0.1)]}],
+                    )
+                    use_bg[0] = True
                 out.append(["child", b])
             elif r < 0.8 and depth < 4 and g.ntask < 8:
                 brs = []
@@ -1213,6 +1240,8 @@ def gen_c12(g: G) -> dict:
     g.nctx += 1
     root = {"id": f"x{g.nctx}", "parent": "implicit", "body": body(1), "end": {"how": "return"}, "catch": True}
     out: dict[str, Any] = {"root": root, "probe_every": True}
+    if use_bg[0]:
+        out["bg"] = True
     if rng.random() < 0.3:
         out["cancel"] = {"frac": round(rng.random(), 4)}
     return out
